@@ -58,6 +58,7 @@ type kvBackend struct {
 	issued  map[string]bool
 	cleanup func()
 	pendingMon [][2]string // monitor lines to emit after the current op line
+	doneCtx    bool        // the current call gets a context that is already cancelled
 }
 
 func newKvBackend(kind string) *kvBackend {
@@ -201,6 +202,11 @@ func kvShowKey(k string) string {
 
 func (b *kvBackend) exec(ctx *Ctx, w0 []string) string {
 	c := context.Background()
+	if b.doneCtx {
+		cc, cancel := context.WithCancel(c)
+		cancel()
+		c = cc
+	}
 	w := append([]string{}, w0...)
 	switch w[0] {
 	case "create", "get", "put", "cas", "delete", "wait", "list":
@@ -374,7 +380,24 @@ func kvRunCase(ctx *Ctx, kind, tag string, ops []string) {
 				}
 			}
 		}
-		out := guard(func() string { return b.exec(ctx, w[1:]) })
+		var out string
+		if strings.HasPrefix(w[1], "!") {
+			// the call is made with a context that is ALREADY DONE.  The contract leaves it open whether an operation
+			// looks at its context: it may refuse (the context's error, nothing changed — recorded as `!op`, the
+			// model answers ctxErr and keeps its state) or carry on regardless (recorded as the plain op, held to the
+			// contract like any other call).  What it may not do is answer something else.
+			w2 := append([]string{strings.TrimPrefix(w[1], "!")}, w[2:]...)
+			b.doneCtx = true
+			out = guard(func() string { return b.exec(ctx, w2) })
+			b.doneCtx = false
+			if out != "ctxErr" {
+				o = w[0] + " " + strings.Join(w2, " ")
+				w = append([]string{w[0]}, w2...)
+			}
+			ctx.R.Nontrivial("context already done")
+		} else {
+			out = guard(func() string { return b.exec(ctx, w[1:]) })
+		}
 		ctx.R.Op(o, out)
 		for _, m := range b.pendingMon {
 			ctx.R.Quiet(m[0], m[1])
@@ -581,6 +604,9 @@ func kvGen(ctx *Ctx, n int, redisOK bool, keys []string) []string {
 		default:
 			o = fmt.Sprintf("wait %s %s", k, verArg())
 		}
+		if !strings.HasPrefix(o, "wait ") && r.Chance(1, 12) {
+			o = "!" + o // with a context that is already done
+		}
 		ops = append(ops, fmt.Sprintf("%d %s", now, o))
 	}
 	return ops
@@ -660,7 +686,7 @@ func runKv(ctx *Ctx, kind string) {
 		for _, o := range kvGen(ctx, ctx.Rnd.Range(5, 40), true, emptyKeys) {
 			// `list ?` with the empty key present is known finding KF-4 of C03 (the glob package's `?` accepts the
 			// empty string): asked only where that finding is listed
-			if strings.HasSuffix(o, " list ?") && ctx.Focus != "" && ctx.Focus != "C03" {
+			if (strings.HasSuffix(o, " list ?") || strings.HasSuffix(o, " !list ?")) && ctx.Focus != "" && ctx.Focus != "C03" {
 				continue
 			}
 			ops = append(ops, o)
